@@ -18,6 +18,11 @@ const (
 	// accepted by TACACS+ Servers.  The recommended maximum packet size
 	// is 2^(16).
 	MaxBodyLength uint32 = 65536
+
+	// maxUint8Len is the longest value a one octet wire length field can describe
+	maxUint8Len = 255
+	// maxUint16Len is the longest value a two octet wire length field can describe
+	maxUint16Len = 65535
 )
 
 // EncoderDecoder will encode or decode from wire format, any of the tacacs packet types
@@ -205,6 +210,25 @@ func (b *readBuffer) string(n int) string {
 	str := s[:n]
 	*b = s[n:]
 	return string(str)
+}
+
+// fitsWire ensures that every field can be described by a wire length field that can
+// carry at most max (255 for a one octet length, 65535 for a two octet length)
+func fitsWire(max int, fields ...Field) error {
+	for _, f := range fields {
+		if f.Len() > max {
+			return fmt.Errorf("%T is too long to encode, max length [%v], found [%v]", f, max, f.Len())
+		}
+	}
+	return nil
+}
+
+// fitsArgCount ensures that the number of arguments can be carried in the one octet arg_cnt
+func fitsArgCount(args Args) error {
+	if len(args) > maxUint8Len {
+		return fmt.Errorf("too many arguments to encode, max [%v], found [%v]", maxUint8Len, len(args))
+	}
+	return nil
 }
 
 // appendUint16 will append an int to a []byte as a uint16 but shifting bits
